@@ -166,6 +166,7 @@ impl crux_core::App for App {
             model.uni = UniCtx::lookup(*uni);
         }
         let Some(u) = model.uni.clone() else { return Command::done() };
+        crate::conc::app_point("app.update"); // C08: the caller holds the model's write lock here
         match apply_event(&u, model, ev) {
             None => Command::done(),
             Some(c) if u.legacy => {
@@ -177,6 +178,7 @@ impl crux_core::App for App {
     }
 
     fn view(&self, model: &Model) -> Vec<Event> {
+        crate::conc::app_point("app.view"); // C08: the caller holds the model's read lock here
         model.log.clone()
     }
 }
